@@ -147,7 +147,10 @@ func genText(t *rapid.T, label string) string {
 func genErrText(t *rapid.T, label string) string {
 	// "SUCCESS" (add-hardware-certificate, wait) and "" (slot replies) are excluded by construction:
 	// see KNOWN_FINDINGS.txt (in-band status) and the probes below.
-	return rapid.SampledFrom([]string{"boom", "agent: key not found", "é 日本", "SUCCESS ", "success", "x\x00y", strings.Repeat("e", 200), "agent: locked", "0"}).Draw(t, label)
+	return rapid.SampledFrom([]string{"boom", "agent: key not found", "é 日本", "SUCCESS ", "success", "x\x00y", strings.Repeat("e", 200), "agent: locked", "0",
+		// the io sentinels themselves (vh.Script returns these texts AS io.EOF / io.ErrUnexpectedEOF / an error wrapping io.EOF:
+		// what a served agent reports when its own upstream hung up)
+		"EOF", "unexpected EOF", "wrapped EOF"}).Draw(t, label)
 }
 
 func genOp(t *rapid.T, label string) COp {
